@@ -267,8 +267,12 @@ class Image(Traversable):
                     match.group(2), 
                     alternate_ending
                 ))
-                if alternate_name in sample_dict.keys():
-                    alternate_sample = sample_dict[alternate_name]
+                alternate_sample = sample_dict.get(alternate_name)
+                # the stored names, too, may differ in the final letter only
+                if (
+                    alternate_sample is not None 
+                    and alternate_sample.name[:-1] == sample.name[:-1]
+                ):
                     alternate_sample = cast(Sample, alternate_sample)
                     if alternate_ending == "R":
                         pairs = [sample, alternate_sample]
